@@ -26,6 +26,14 @@ B = "bits.bips.bip39."
 WL = tm.app(B + "load_wordlist", [], ty=tm.ANY)
 
 
+def is_wl(t):
+    """The word list itself, or an immutable / fresh copy of it (tuple(words), list(words)): the same entries at the same positions."""
+    t = rules.unfz(t)
+    while isinstance(t, T) and t.op in ("tolist", "totuple", "tuple", "list") and len(t.args) == 1:
+        t = rules.unfz(t.args[0])
+    return tm.veq(t, WL)
+
+
 def _is_bv(t, d, op="bv"):
     t = rules.unfz(t)
     return isinstance(t, T) and t.op == op and t.args[0] == d
@@ -33,7 +41,7 @@ def _is_bv(t, d, op="bv"):
 
 def _is_enum_wl(t):
     t = rules.unfz(t)
-    return isinstance(t, T) and t.op == "enumerate" and len(t.args) == 1 and tm.veq(rules.unfz(t.args[0]), WL)
+    return isinstance(t, T) and t.op == "enumerate" and len(t.args) == 1 and is_wl(t.args[0])
 
 
 def inverse_map(D):
@@ -58,7 +66,7 @@ def inverse_map(D):
         return isinstance(kv, T) and kv.op == "kv" and _is_bv(kv.args[0], 0) and _is_bv(kv.args[1], 0, "bvi")
     if D.op == "dict" and len(D.args) == 1:
         a = rules.unfz(D.args[0])
-        if isinstance(a, T) and a.op == "zip" and len(a.args) == 2 and tm.veq(rules.unfz(a.args[0]), WL):
+        if isinstance(a, T) and a.op == "zip" and len(a.args) == 2 and is_wl(a.args[0]):
             r = rules.unfz(a.args[1])
             return isinstance(r, T) and r.op == "range" and r.args[0] == 0 and r.args[2] == 1 and tm.veq(r.args[1], tm.length(WL))
         if isinstance(a, T) and a.op == "map" and a.args[2] is None and _is_enum_wl(a.args[1]):
@@ -67,11 +75,58 @@ def inverse_map(D):
     return False
 
 
+def _is_file_attr(t):
+    t = rules.unfz(t)
+    return isinstance(t, T) and t.op == "ext" and t.args[0].endswith("__file__")
+
+def english_txt(t):
+    """Does the term denote <directory of the module>/english.txt? (os.path.join(dirname(__file__), ..), Path(__file__).with_name(..),
+    Path(__file__).parent / ..)"""
+    t = rules.unfz(t)
+    if not isinstance(t, T):
+        return False
+    if t.op == "pathjoin" and len(t.args) == 2 and t.args[1] == "english.txt":
+        d = rules.unfz(t.args[0])
+        return isinstance(d, T) and d.op == "app" and d.args[0] == "os.path.dirname" and _is_file_attr(d.args[1][0])
+    if t.op == "app" and t.args[0] == "m:with_name" and len(t.args[1]) == 2 and t.args[1][1] == "english.txt":
+        pth = rules.unfz(t.args[1][0])
+        return isinstance(pth, T) and pth.op == "app" and pth.args[0] in ("pathlib.Path", "pathlib.PurePath") and _is_file_attr(pth.args[1][0])
+    if t.op == "app" and t.args[0] in ("pathlib.Path", "pathlib.PurePath") and len(t.args[1]) == 1:
+        return english_txt(t.args[1][0])
+    return False
+
+def lines_of_file(t):
+    # read().splitlines(), readlines() or iteration over the open text file: the same lines for a file whose only line
+    # separator is "\n" (checked on english.txt itself below)
+    t = rules.unfz(t)
+    if isinstance(t, T) and t.op in ("m:splitlines", "m:readlines") and len(t.args) >= 1:
+        t = rules.unfz(t.args[0])
+        if isinstance(t, T) and t.op == "io" and t.args[0] == "read":
+            t = rules.unfz(t.args[1])
+        elif isinstance(t, T) and t.op == "app" and t.args[0] == "m:read_text" and len(t.args[1]) >= 1:
+            return english_txt(t.args[1][0])  # Path(...).read_text()
+    return isinstance(t, T) and t.op == "enter" and isinstance(t.args[0], T) and t.args[0].op == "app" and t.args[0].args[0] == "open" and \
+        (english_txt(t.args[0].args[1][0]) or tm.contains(t.args[0].args[1][0], lambda u: u == "english.txt"))
+
+
+def is_wordlist_term(v):
+    """Does the term denote the stripped lines of english.txt next to the module (however the file is opened and read)?"""
+    v = rules.unfz(v)
+    return isinstance(v, T) and v.op == "map" and tm.veq(v.args[0], T("m:strip", (tm.bv(0),), tm.ANY)) and v.args[2] is None and tm.contains(v.args[1], lambda t: t == "english.txt") and \
+        lines_of_file(v.args[1])
+
+
+def wordlist_symbol(t):
+    """bind_pred: wherever the functions under analysis read the word list themselves (a collection class that owns the file, an
+    inlined copy of the reader) instead of calling load_wordlist, the list is the same symbol WL."""
+    return WL if isinstance(t, T) and t.op == "map" and is_wordlist_term(t) else None
+
+
 def word_lookup(t):
     """The word a RAISING lookup in the word list looks up: list.index(word) or inverse_map[word]; None for anything else."""
     if not isinstance(t, T):
         return None
-    if t.op == "m:index" and len(t.args) == 2 and tm.veq(rules.unfz(t.args[0]), WL):
+    if t.op == "m:index" and len(t.args) == 2 and is_wl(t.args[0]):
         return t.args[1]
     if t.op in ("idx", "lookup") and len(t.args) == 2 and inverse_map(t.args[0]):
         return t.args[1]
@@ -88,6 +143,7 @@ def run(ctx):
             example="the same call repeated in one process after a call with other arguments / a failed call")
 
     ev = ctx.evaluator(opaque={B + "load_wordlist"})
+    ev.bind_pred = wordlist_symbol
     fc = ctx.fn(B + "calculate_mnemonic_phrase")
     bad = []
     from .. import bitvec
@@ -123,7 +179,7 @@ def run(ctx):
             ok, why = True, ""
             for k_, (wt, wg) in enumerate(zip(words_t, want_groups)):
                 wt = rules.unfz(wt)
-                if not (isinstance(wt, T) and wt.op == "idx" and tm.veq(rules.unfz(wt.args[0]), WL)):
+                if not (isinstance(wt, T) and wt.op == "idx" and is_wl(wt.args[0])):
                     ok, why = False, "word %d is %s, not an entry of the word list" % (k_, tm.show(wt)[:100])
                     break
                 same = bitvec.same_int(wt.args[1], wg, width_of)
@@ -217,7 +273,7 @@ def run(ctx):
                             good = True
                             for i, wt in enumerate(A):
                                 wt = rules.unfz(wt)
-                                if not (isinstance(wt, T) and wt.op == "idx" and tm.veq(rules.unfz(wt.args[0]), WL)):
+                                if not (isinstance(wt, T) and wt.op == "idx" and is_wl(wt.args[0])):
                                     good = False
                                     break
                                 want_g = tm.binop("band", tm.binop("shr", E2, 11 * (n - 1 - i)), 0x7FF)
@@ -256,40 +312,7 @@ def run(ctx):
     ev2 = ctx.evaluator()
     sl = ev2.run(fl)
     v = sl.value()
-    def _is_file_attr(t):
-        t = rules.unfz(t)
-        return isinstance(t, T) and t.op == "ext" and t.args[0].endswith("__file__")
-
-    def english_txt(t):
-        """Does the term denote <directory of the module>/english.txt? (os.path.join(dirname(__file__), ..), Path(__file__).with_name(..),
-        Path(__file__).parent / ..)"""
-        t = rules.unfz(t)
-        if not isinstance(t, T):
-            return False
-        if t.op == "pathjoin" and len(t.args) == 2 and t.args[1] == "english.txt":
-            d = rules.unfz(t.args[0])
-            return isinstance(d, T) and d.op == "app" and d.args[0] == "os.path.dirname" and _is_file_attr(d.args[1][0])
-        if t.op == "app" and t.args[0] == "m:with_name" and len(t.args[1]) == 2 and t.args[1][1] == "english.txt":
-            pth = rules.unfz(t.args[1][0])
-            return isinstance(pth, T) and pth.op == "app" and pth.args[0] in ("pathlib.Path", "pathlib.PurePath") and _is_file_attr(pth.args[1][0])
-        if t.op == "app" and t.args[0] in ("pathlib.Path", "pathlib.PurePath") and len(t.args[1]) == 1:
-            return english_txt(t.args[1][0])
-        return False
-
-    def lines_of_file(t):
-        # read().splitlines(), readlines() or iteration over the open text file: the same lines for a file whose only line
-        # separator is "\n" (checked on english.txt itself below)
-        t = rules.unfz(t)
-        if isinstance(t, T) and t.op in ("m:splitlines", "m:readlines") and len(t.args) >= 1:
-            t = rules.unfz(t.args[0])
-            if isinstance(t, T) and t.op == "io" and t.args[0] == "read":
-                t = rules.unfz(t.args[1])
-            elif isinstance(t, T) and t.op == "app" and t.args[0] == "m:read_text" and len(t.args[1]) >= 1:
-                return english_txt(t.args[1][0])  # Path(...).read_text()
-        return isinstance(t, T) and t.op == "enter" and isinstance(t.args[0], T) and t.args[0].op == "app" and t.args[0].args[0] == "open" and \
-            (english_txt(t.args[0].args[1][0]) or tm.contains(t.args[0].args[1][0], lambda u: u == "english.txt"))
-    okl = isinstance(v, T) and v.op == "map" and tm.veq(v.args[0], T("m:strip", (tm.bv(0),), tm.ANY)) and v.args[2] is None and tm.contains(v.args[1], lambda t: t == "english.txt") and \
-        lines_of_file(v.args[1])
+    okl = is_wordlist_term(v)
     R.check("C10.1", "TERM-EQ", fl, "load_wordlist = stripped lines of english.txt next to the module", okl, "load_wordlist returns %s" % tm.show(v)[:200])
     path = os.path.join(ctx.prog.root, "bips", "bip39", "english.txt")
     try:
